@@ -291,8 +291,8 @@ def indicate_proj_axis(space, scale_structures=0.5):
 
     # 1st cuboid of size (dx[0], dx[1], 2 * dx[2]), offset in x and y axes,
     # symmetric in z axis
-    ix0 = int((cen + 1 * dx)[1])
-    ix1 = int((cen + 2 * dx)[1])
+    ix0 = int((cen + 1 * dx)[0])
+    ix1 = int((cen + 2 * dx)[0])
     iy0 = int(cen[1])
     if space.ndim == 2:
         phan[ix0:ix1, iy0:-iy] = 1
@@ -302,8 +302,8 @@ def indicate_proj_axis(space, scale_structures=0.5):
 
     # 2nd cuboid of (dx[0], dx[1], 2 * dx[2]) touching the first diagonally
     # at a long edge; offset in x and y axes, symmetric in z axis
-    ix0 = int((cen + 2 * dx)[1])
-    ix1 = int((cen + 3 * dx)[1])
+    ix0 = int((cen + 2 * dx)[0])
+    ix1 = int((cen + 3 * dx)[0])
     iy1 = int(cen[1])
     if space.ndim == 2:
         phan[ix0:ix1, iy:iy1] = 1
